@@ -142,7 +142,13 @@ for _k in (1, 2, 3):
         shape = vc.shape("shape", 2)
         rg = vc.bool("requires_grad")
         dt = SymToken("dtype", vc.int("dtype"))
-        group = [vc.new(f"{TN}:TorchTensorParameter", *shape, requires_grad=rg, dtype=dt, initializer_=vc.opaque(f"init{i}")) for i in range(_k)]
+        calls = []
+
+        def mk(i):
+            o = Opaque(f"init{i}")
+            o.__dict__["__vf_call__"] = lambda x, i=i: calls.append(i) or x
+            return o
+        group = [vc.new(f"{TN}:TorchTensorParameter", *shape, requires_grad=rg, dtype=dt, initializer_=mk(i)) for i in range(_k)]
         sym = {id(g): vc.opaque(f"sym{i}") for i, g in enumerate(group)}
         reg = []
         state = Opaque("state")
@@ -163,8 +169,15 @@ for _k in (1, 2, 3):
         good = isinstance(ini, PartialVal) and isinstance(ini.func, FuncVal) and ini.func.info.name == "foldwise_initializer_"
         vc.ensure("foldwise_initialiser", good)
         if good:
-            lst = list(ini.kwargs.get("initializers", []))
-            vc.ensure("initialisers_in_group_order", len(lst) == _k and all(a is g.fields["_initializer_"] for a, g in zip(lst, group)))
+            # the folded initialiser runs on EVERY reset_parameters(): two initialisations apply every member's initialiser twice, in order
+            t = vc.tensor("storage", (_k, *shape))
+            for rnd in (1, 2):
+                del calls[:]
+                vc.I.call(ini, [t], {})
+                vc.ensure(f"initialisation{rnd}_applies_every_members_initialiser_in_group_order", calls == list(range(_k)))
+            v = ini.kwargs.get("initializers", [])
+            if isinstance(v, (list, tuple)):          # (any other re-iterable is judged by the behavioural clauses above)
+                vc.ensure("initialisers_in_group_order", len(v) == _k and all(a is g.fields["_initializer_"] for a, g in zip(v, group)))
         vc.ensure("registry_points_member_i_to_fold_i", len(reg) == _k and all(r[0] is sym[id(g)] and r[1] is f and r[2] == i for i, (r, g) in enumerate(zip(reg, group))))
     obligation(f"C17.fold_tensor_group.size{_k}", "C17", [f"{TC}:_fold_parameter_nodes_group"])(_h)
 
